@@ -29,6 +29,7 @@ structure Features where
   preplaced : Bool    -- the circuit holds a TwoQubitQPDGate / SingleQubitQPDGate
   payload : Bool      -- some gate carries an ndarray parameter (UnitaryGate)
   mapOps : Bool       -- some basis map holds a mutable (parametrised) operation
+  paramOps : Bool     -- some instruction holds a Python-side mutable operation object with parameters
   deriving Repr, DecidableEq, Inhabited
 
 inductive Step where
@@ -59,7 +60,7 @@ def possible (f : Features) : Share → Bool
   | .S1 => f.preplaced
   | .S2 => f.payload
   | .S3 => f.mapOps
-  | .S4 => f.payload
+  | .S4 => f.payload || f.paramOps
 
 /-- the sharing classes a skeleton can produce on an input with the given features -/
 def shares (sk : Skeleton) (f : Features) : List Share :=
